@@ -215,4 +215,202 @@ theorem specKids_compact (c : Cfg) (hv : c.v.dropSuffix = false) :
     simp [Line.compact, Node.compact, Node.separator]
     cases one <;> cases hl : x.last <;> simp
 end
+
+/-! shapes, fit, indentation -/
+def Node.expandable (n : Node) : Bool := n.isContainer && !n.children.isEmpty
+
+theorem specOf_ne_nil (c : Cfg) (l : Line) : specOf c l ≠ [] := by
+  unfold specOf
+  split
+  · rw [specLine_unfold]; split <;> simp
+  · simp
+
+theorem flatMap_specOf_length_ge (c : Cfg) (ls : List Line) : ls.length ≤ (ls.flatMap (specOf c)).length := by
+  induction ls with
+  | nil => simp
+  | cons a t ih =>
+    simp only [List.flatMap_cons, List.length_append, List.length_cons]
+    have : 1 ≤ (specOf c a).length := by
+      have := specOf_ne_nil c a
+      cases h : specOf c a with
+      | nil => exact absurd h this
+      | cons _ _ => simp
+    omega
+
+/-- the two shapes of a rendered line: kept, or open / items / close with at least one item -/
+theorem specLine_cases (c : Cfg) (l : Line) (n : Node) :
+    (specLine c l n = [l] ∧ ¬ ((n.expandable && !l.expanded && mustExpand c.cw c.w c.ea l n) = true)) ∨
+    (∃ mid, specLine c l n = l.expandHead n :: (mid ++ [l.expandClose c.v n]) ∧ mid ≠ [] ∧
+      mid = (l.expandKids n c.ind).flatMap (specOf c) ∧
+      (n.expandable && !l.expanded && mustExpand c.cw c.w c.ea l n) = true) := by
+  rw [specLine_unfold]
+  unfold Node.expandable
+  split
+  · rename_i h
+    right
+    refine ⟨(l.expandKids n c.ind).flatMap (specOf c), ?_, ?_, rfl, h⟩
+    · simp [Line.expandTail, List.flatMap_append, specOf, Line.expandClose]
+    · intro hnil
+      have h1 := flatMap_specOf_length_ge c (l.expandKids n c.ind)
+      rw [hnil] at h1
+      simp only [Bool.and_eq_true] at h
+      have : n.children ≠ [] := by simpa using h.1.1.2
+      simp [Line.expandKids] at h1
+      exact this h1
+  · rename_i h
+    left; exact ⟨rfl, h⟩
+
+theorem cellLen_nil (cw : Char → Nat) : cellLen cw [] = 0 := rfl
+
+theorem mustExpand_root (cw : Char → Nat) (w : Nat) (ea : Bool) (n : Node) (hc : n.isContainer = true) :
+    mustExpand cw w ea (rootLine n) n = true ↔ (ea = true ∨ w < cellLen cw n.str) := by
+  unfold mustExpand Line.checkLength
+  have := Node.checkLength_iff cw n 0 w hc
+  simp only [rootLine, List.length_nil, cellLen_nil, Nat.add_zero, Bool.or_eq_true, Bool.not_eq_true']
+  constructor
+  · rintro (h | h)
+    · exact Or.inl h
+    · right
+      have h' : ¬ (n.checkLength cw 0 w = true) := by simp [h]
+      rw [this] at h'
+      omega
+  · rintro (h | h)
+    · exact Or.inl h
+    · right
+      cases hck : n.checkLength cw 0 w with
+      | false => rfl
+      | true => rw [this] at hck; omega
+
+-- every line of the result that still holds a non-empty container was checked and fits
+mutual
+theorem specLine_kept_fits (c : Cfg) :
+    ∀ (n : Node) (l : Line), l.node = some n → l.expanded = false →
+      ∀ l' ∈ specLine c l n, ∀ n', l'.node = some n' → n'.expandable = true →
+        c.ea = false ∧ l'.checkLength c.cw n' c.w = true
+  | .mk k vr o cl e la t ic ch, l, hn, hex, l', hl', n', hn', he' => by
+    rw [specLine] at hl'
+    split at hl'
+    · simp only [List.mem_cons, List.mem_append, List.not_mem_nil, or_false] at hl'
+      rcases hl' with rfl | hl' | rfl
+      · simp only [Line.expandHead] at hn'; split at hn' <;> cases hn'
+      · exact specKids_kept_fits c ch _ _ l' hl' n' hn' he'
+      · simp [Line.expandClose] at hn'
+    · rename_i hc
+      simp only [List.mem_singleton] at hl'
+      subst hl'
+      rw [hn] at hn'; cases hn'
+      simp only [Node.expandable, Node.isContainer, Node.children] at he'
+      simp only [he', hex, Bool.not_false, Bool.true_and, mustExpand, Bool.or_eq_true, Bool.not_eq_true', not_or,
+        Bool.not_eq_true, Bool.not_eq_false] at hc
+      exact hc
+theorem specKids_kept_fits (c : Cfg) :
+    ∀ (ch : List Node) (ws : Str) (one : Bool), ∀ l' ∈ specKids c ws one ch, ∀ n', l'.node = some n' →
+      n'.expandable = true → c.ea = false ∧ l'.checkLength c.cw n' c.w = true
+  | [], _, _, l', hl', _, _, _ => by simp [specKids] at hl'
+  | x :: xs, ws, one, l', hl', n', hn', he' => by
+    rw [specKids, List.mem_append] at hl'
+    rcases hl' with h | h
+    · exact specLine_kept_fits c x _ rfl rfl l' h n' hn' he'
+    · exact specKids_kept_fits c xs ws one l' h n' hn' he'
+end
+
+-- indentation: every line below `l` is indented by `l`'s whitespace plus a whole number of indents
+mutual
+theorem specLine_indent (c : Cfg) :
+    ∀ (n : Node) (l : Line), ∀ l' ∈ specLine c l n,
+      ∃ d, l'.whitespace = l.whitespace ++ List.replicate (d * c.ind) ' '
+  | .mk k vr o cl e la t ic ch, l, l', hl' => by
+    rw [specLine] at hl'
+    split at hl'
+    · simp only [List.mem_cons, List.mem_append, List.not_mem_nil, or_false] at hl'
+      rcases hl' with rfl | hl' | rfl
+      · exact ⟨0, by simp [Line.expandHead]; split <;> rfl⟩
+      · obtain ⟨d, hd⟩ := specKids_indent c ch _ _ l' hl'
+        exact ⟨d + 1, by rw [hd, List.append_assoc, List.replicate_append_replicate]; congr 2; rw [Nat.add_mul]; omega⟩
+      · exact ⟨0, by simp [Line.expandClose]⟩
+    · simp only [List.mem_singleton] at hl'
+      exact ⟨0, by simp [hl']⟩
+theorem specKids_indent (c : Cfg) :
+    ∀ (ch : List Node) (ws : Str) (one : Bool), ∀ l' ∈ specKids c ws one ch,
+      ∃ d, l'.whitespace = ws ++ List.replicate (d * c.ind) ' '
+  | [], _, _, l', hl' => by simp [specKids] at hl'
+  | x :: xs, ws, one, l', hl' => by
+    rw [specKids, List.mem_append] at hl'
+    rcases hl' with h | h
+    · exact specLine_indent c x _ l' h
+    · exact specKids_indent c xs ws one l' h
+end
+
+
+/-! the loop result as the specification of the root line -/
+theorem renderLines_eq_spec (cw : Char → Nat) (v : Variant) (n : Node) (w ind : Nat) (ea : Bool) :
+    renderLines cw v n w ind ea = specLine ⟨cw, v, w, ind, ea⟩ (rootLine n) n := by
+  have := renderLoop_eq_spec ⟨cw, v, w, ind, ea⟩ [rootLine n] []
+  simp only [List.reverse_nil, List.nil_append, List.flatMap_cons, List.flatMap_nil, List.append_nil] at this
+  rw [renderLines, this]
+  simp [specOf, rootLine]
+
+/-! the loop as an iteration with an explicit step budget -/
+def renderLoopFuel (cw : Char → Nat) (v : Variant) (maxWidth indentSize : Nat) (expandAll : Bool) :
+    Nat → List Line → List Line → Option (List Line)
+  | 0, _, _ => none
+  | _ + 1, [], done => some done.reverse
+  | f + 1, l :: rest, done =>
+    match l.expandNode with
+    | some n =>
+      if mustExpand cw maxWidth expandAll l n then
+        renderLoopFuel cw v maxWidth indentSize expandAll f (l.expandTail v n indentSize ++ rest) (l.expandHead n :: done)
+      else renderLoopFuel cw v maxWidth indentSize expandAll f rest (l :: done)
+    | none => renderLoopFuel cw v maxWidth indentSize expandAll f rest (l :: done)
+
+theorem Line.weight_pos (l : Line) : 0 < l.weight := by unfold Line.weight; split <;> omega
+
+theorem renderLoopFuel_eq (cw : Char → Nat) (v : Variant) (w ind : Nat) (ea : Bool) (todo done : List Line) :
+    ∀ fuel, todoWeight todo < fuel →
+      renderLoopFuel cw v w ind ea fuel todo done = some (renderLoop cw v w ind ea todo done) := by
+  fun_induction renderLoop cw v w ind ea todo done with
+  | case1 done =>
+    intro fuel hf
+    cases fuel with
+    | zero => omega
+    | succ f => simp [renderLoopFuel]
+  | case2 l rest done n h hm ih =>
+    intro fuel hf
+    cases fuel with
+    | zero => omega
+    | succ f =>
+      simp only [renderLoopFuel, h, hm, if_true]
+      apply ih
+      rw [todoWeight_append, todoWeight_expandTail]
+      simp only [todoWeight, Line.weight, expandNode_some h] at hf
+      omega
+  | case3 l rest done n h hm ih =>
+    intro fuel hf
+    cases fuel with
+    | zero => omega
+    | succ f =>
+      simp only [renderLoopFuel, h, hm]
+      apply ih
+      simp only [todoWeight] at hf
+      have := Line.weight_pos l
+      omega
+  | case4 l rest done h ih =>
+    intro fuel hf
+    cases fuel with
+    | zero => omega
+    | succ f =>
+      simp only [renderLoopFuel, h]
+      apply ih
+      simp only [todoWeight] at hf
+      have := Line.weight_pos l
+      omega
+
+theorem cellLen_replicate_space (cw : Char → Nat) (hs : cw ' ' = 1) (k : Nat) :
+    cellLen cw (List.replicate k ' ') = k := by
+  induction k with
+  | zero => rfl
+  | succ k ih =>
+    simp only [cellLen, List.replicate_succ, List.map_cons, List.sum_cons, hs] at ih ⊢
+    omega
+
 end RichModel.Pretty
